@@ -5,6 +5,7 @@ import GdcVerif.Model.Mqc
 import GdcVerif.Gen.J2kT1
 import GdcVerif.Model.T1
 import GdcVerif.Model.T1Layered
+import GdcVerif.Model.T1Pipe
 /-! Driver ops of C20: RCT, 5/3 DWT, MQ coder. -/
 namespace Drv.C20
 open Drv
@@ -101,6 +102,20 @@ def step? : List String → Option String
     | some [w, h, o, sty, np], some mb =>
       match T1.decodeBlock w h o sty np mb (hexToBytes hx) with
       | .ok xs => "ok " ++ intsToStr xs
+      | .err => "err"
+      | .panic => "panic"
+    | _, _ => "bad-op"
+  | ["t1-encf", fb, w, h, o, sty, np, xs] => some <| match nats? [fb, w, h, o, sty, np], parseInts xs with
+    | some [fb, w, h, o, sty, np], some xs =>
+      match T1.encodeBlockF fb w h o sty xs np with
+      | .ok bs => "ok " ++ bytesToHex bs
+      | .err => "err"
+      | .panic => "panic"
+    | _, _ => "bad-op"
+  | ["t1-decoj", w, h, o, sty, np, mb, hx] => some <| match nats? [w, h, o, sty, np], mb.toInt? with
+    | some [w, h, o, sty, np], some mb =>
+      match T1.decodeBlockOJ w h o sty np mb (hexToBytes hx) with
+      | .ok xs => "ok " ++ intsToStr xs ++ " | " ++ intsToStr (xs.map T1.halveT)
       | .err => "err"
       | .panic => "panic"
     | _, _ => "bad-op"
